@@ -18,7 +18,7 @@ FIELDS = ('outcome', 'ops', 'last_ops', 'log', 'final')
 RULE = ('programs from sim/gen.py that perform IO; the fault-free model run gives N device calls; one fault per run, '
         'the failing call index c enumerated 0..N-1 (N <= 48 fully, seeded beyond) plus attach_memory, the kind drawn '
         'per c from {library IO error, IOReadOnEOF (read and write side), foreign Exception, ValueError, '
-        'KeyboardInterrupt, BaseException subclass, bad __bool__, non-bool truthy}; every faulted run on native (flat, '
+        'OSError family (BrokenPipeError, TimeoutError, OSError), RuntimeError, MemoryError, StopIteration, KeyboardInterrupt, BaseException subclass, bad __bool__, non-bool truthy}; every faulted run on native (flat, '
         'forced paged, ring), fast and featured. evaluations = faulted engine runs; non-trivial: the fault fired and '
         'the program had executed >= 1 op; distinct = distinct digest of (case, plan)')
 STATE_MEASURE = 'distinct (engine class, fault kind, model micro-step at the stop, outcome class) tuples'
@@ -44,8 +44,10 @@ def setup_worker():
     sigint.enable_monitoring()
 
 
-KINDS_READ = ['io', 'eof', 'foreign', 'value', 'kbd', 'baseexc', 'badbool', 'truthy', 'broken']
-KINDS_WRITE = ['io', 'eof', 'foreign', 'value', 'kbd', 'baseexc', 'broken']
+KINDS_READ = ['io', 'eof', 'foreign', 'value', 'kbd', 'baseexc', 'badbool', 'truthy', 'broken', 'epipe', 'timeout', 'oserr',
+              'runtime', 'memerr', 'stopiter']
+KINDS_WRITE = ['io', 'eof', 'foreign', 'value', 'kbd', 'baseexc', 'broken', 'epipe', 'timeout', 'oserr', 'runtime', 'memerr',
+               'stopiter']
 
 
 def plan(tier):
